@@ -43,6 +43,7 @@ pub enum PolynomialDegree {
 pub struct FastFixedIn<T> {
     nbr_channels: usize,
     chunk_size: usize,
+    history_len: usize,
     last_index: f64,
     resample_ratio: f64,
     resample_ratio_original: f64,
@@ -222,13 +223,20 @@ where
 
         validate_ratios(resample_ratio, max_resample_ratio_relative)?;
 
-        let buffer = vec![vec![T::zero(); chunk_size + 2 * POLYNOMIAL_LEN_U]; nbr_channels];
+        // Frames kept before the current chunk. A chunk processed at the lowest ratio stops up to
+        // one step of max_relative / ratio frames before its end, and a following chunk at a
+        // higher ratio continues from there.
+        let history_len = 2 * POLYNOMIAL_LEN_U
+            + (max_resample_ratio_relative / resample_ratio).ceil() as usize
+            + 1;
+        let buffer = vec![vec![T::zero(); chunk_size + history_len]; nbr_channels];
 
         let channel_mask = vec![true; nbr_channels];
 
         Ok(FastFixedIn {
             nbr_channels,
             chunk_size,
+            history_len,
             last_index: -(POLYNOMIAL_LEN_I / 2) as f64,
             resample_ratio,
             resample_ratio_original: resample_ratio,
@@ -278,13 +286,14 @@ where
         )?;
 
         // Update buffer with new data.
+        let history_len = self.history_len;
         for buf in self.buffer.iter_mut() {
-            buf.copy_within(self.chunk_size..self.chunk_size + 2 * POLYNOMIAL_LEN_U, 0);
+            buf.copy_within(self.chunk_size..self.chunk_size + history_len, 0);
         }
 
         for (chan, active) in self.channel_mask.iter().enumerate() {
             if *active {
-                self.buffer[chan][2 * POLYNOMIAL_LEN_U..2 * POLYNOMIAL_LEN_U + self.chunk_size]
+                self.buffer[chan][history_len..history_len + self.chunk_size]
                     .copy_from_slice(&wave_in[chan].as_ref()[..self.chunk_size]);
             }
         }
@@ -325,8 +334,8 @@ where
                         if *active {
                             unsafe {
                                 let buf = self.buffer.get_unchecked(chan).get_unchecked(
-                                    (start_idx + 2 * POLYNOMIAL_LEN_I) as usize
-                                        ..(start_idx + 2 * POLYNOMIAL_LEN_I + 8) as usize,
+                                    (start_idx + history_len as isize) as usize
+                                        ..(start_idx + history_len as isize + 8) as usize,
                                 );
                                 *wave_out
                                     .get_unchecked_mut(chan)
@@ -350,8 +359,8 @@ where
                         if *active {
                             unsafe {
                                 let buf = self.buffer.get_unchecked(chan).get_unchecked(
-                                    (start_idx + 2 * POLYNOMIAL_LEN_I) as usize
-                                        ..(start_idx + 2 * POLYNOMIAL_LEN_I + 6) as usize,
+                                    (start_idx + history_len as isize) as usize
+                                        ..(start_idx + history_len as isize + 6) as usize,
                                 );
                                 *wave_out
                                     .get_unchecked_mut(chan)
@@ -375,8 +384,8 @@ where
                         if *active {
                             unsafe {
                                 let buf = self.buffer.get_unchecked(chan).get_unchecked(
-                                    (start_idx + 2 * POLYNOMIAL_LEN_I) as usize
-                                        ..(start_idx + 2 * POLYNOMIAL_LEN_I + 4) as usize,
+                                    (start_idx + history_len as isize) as usize
+                                        ..(start_idx + history_len as isize + 4) as usize,
                                 );
                                 *wave_out
                                     .get_unchecked_mut(chan)
@@ -400,8 +409,8 @@ where
                         if *active {
                             unsafe {
                                 let buf = self.buffer.get_unchecked(chan).get_unchecked(
-                                    (start_idx + 2 * POLYNOMIAL_LEN_I) as usize
-                                        ..(start_idx + 2 * POLYNOMIAL_LEN_I + 2) as usize,
+                                    (start_idx + history_len as isize) as usize
+                                        ..(start_idx + history_len as isize + 2) as usize,
                                 );
                                 *wave_out
                                     .get_unchecked_mut(chan)
@@ -424,7 +433,7 @@ where
                                 let point = self
                                     .buffer
                                     .get_unchecked(chan)
-                                    .get_unchecked((start_idx + 2 * POLYNOMIAL_LEN_I) as usize);
+                                    .get_unchecked((start_idx + history_len as isize) as usize);
                                 *wave_out
                                     .get_unchecked_mut(chan)
                                     .as_mut()
